@@ -1,4 +1,5 @@
 import Neutrino.Props.C04
+import Neutrino.Props.C04Locator
 open Neutrino.Net
 #print axioms C04_safety
 #print axioms C04_no_regress
@@ -25,3 +26,9 @@ open Neutrino.Net
 #print axioms Neutrino.Ask.C04_no_message_lost
 #print axioms Neutrino.Ask.C04_lost_reply_stalls
 #print axioms Neutrino.Net.C04_progress_no_loss
+#print axioms Neutrino.Locator.C04_request_progress
+#print axioms Neutrino.Locator.C04_request_reaches_tip
+#print axioms Neutrino.Locator.C04_inv_locator_off_chain_tip
+#print axioms Neutrino.Locator.C04_inv_locator_progress
+#print axioms Neutrino.Locator.C04_tip_only_locator_stalls
+#print axioms Neutrino.BM.C04_mismatch_rollback_target
